@@ -405,6 +405,22 @@ func flowAlphabet(v9 bool) map[string]pdgram {
 	}
 }
 
+// companionDatagrams: two IPFIX datagrams of about 3000 octets (300 / 290 records of template 256), longer than any other
+// protocol's default receive buffer
+func companionDatagrams() []pdgram {
+	tpls, t1, _ := flowTemplates(false)
+	var out []pdgram
+	for k, n := range []int{300, 290} {
+		var rs []ref.Record
+		for i := 0; i < n; i++ {
+			rs = append(rs, flowRec(t1, byte(3*i+k)))
+		}
+		w := (&ref.Msg{Hdr: [5]uint32{1, 11, 22, uint32(33 + k), 44}, Sets: []ref.Set{{Kind: ref.SetData, TemplateID: t1.ID, Records: rs}}}).Encode(tpls)
+		out = append(out, pdgram{fmt.Sprintf("ipfix-%d-records", n), expA, w})
+	}
+	return out
+}
+
 func v5Alphabet() map[string]pdgram {
 	mk := func(n int, seed byte) []byte {
 		b := make([]byte, 24+48*n)
@@ -481,6 +497,10 @@ type pipeRun struct {
 	// controller does it when the load has gone (it takes their quit channels out of the pool and closes them)
 	retire int
 	verbose bool // run with -verbose: what is logged about a datagram must not matter to the next one
+	// companion: the collector runs all its protocols in ONE process. While the (sFlow) pipeline of the scenario runs, an
+	// IPFIX pipeline with a larger max-udp-size (9000: jumbo frames) and no mirroring of its own runs beside it; after the
+	// scenario's traffic it receives two datagrams of about 3000 octets, which must be published as their standalone decodes
+	companion bool
 }
 
 type pipeObs struct {
@@ -546,6 +566,18 @@ func runPipe(r *pipeRun, out *pipeObs, mu *realsync.Mutex) {
 	sched.GoNamed("run", pr.run)
 	port := pipePort(r.proto)
 	sched.WaitCond(func() bool { return venv.Conn(port) != nil }, "listening")
+	if r.companion && r.proto != ppIPFIX {
+		opts.IPFIXEnabled, opts.IPFIXWorkers, opts.IPFIXPort, opts.IPFIXTplCacheFile = true, 1, pipePort(ppIPFIX), preloadCache(false)
+		opts.IPFIXUDPSize, opts.IPFIXMirrorAddr = 9000, ""
+		ipfixUDPCh = make(chan IPFIXUDPMsg, 1000)
+		ipfixMCh = make(chan IPFIXUDPMsg, 1000)
+		ipfixMQCh = make(chan []byte, 1000)
+		ipfixMirrorEnabled = false
+		mCache = nil
+		ipfixBuffer = &sync.Pool{New: func() interface{} { return make([]byte, opts.IPFIXUDPSize) }}
+		sched.GoNamed("run (ipfix, beside)", NewIPFIX().run)
+		sched.WaitCond(func() bool { return venv.Conn(pipePort(ppIPFIX)) != nil }, "ipfix listening")
+	}
 	conn := venv.Conn(port)
 	for di, d := range r.seq {
 		conn.Deliver(d.ip, 50000, d.wire)
@@ -565,6 +597,25 @@ func runPipe(r *pipeRun, out *pipeObs, mu *realsync.Mutex) {
 	sched.Quiesce()
 	if conn.Pending() != 0 {
 		sched.Fail("pipeline:stalled", fmt.Sprintf("%d datagrams never read although every thread is idle", conn.Pending()))
+	}
+	if r.companion {
+		cconn := venv.Conn(pipePort(ppIPFIX))
+		var want []string
+		for _, d := range companionDatagrams() {
+			_, pay := standalone(ppIPFIX, d, opts.IPFIXTplCacheFile, nil)
+			want = append(want, pay)
+			cconn.Deliver(d.ip, 50001, d.wire)
+			sched.Quiesce()
+		}
+		var got []string
+		for len(ipfixMQCh) > 0 {
+			got = append(got, string(<-ipfixMQCh))
+		}
+		sort.Strings(got)
+		sort.Strings(want)
+		if strings.Join(got, "\n") != strings.Join(want, "\n") {
+			sched.Fail("pipeline:other-protocol-disturbed", fmt.Sprintf("the IPFIX pipeline running beside the %s one (max-udp-size 9000) published %d messages for 2 datagrams of %d octets; they differ from the standalone decodes (first published: %.160q)", ppNames[r.proto], len(got), len(companionDatagrams()[0].wire), strings.Join(got, " ")))
+		}
 	}
 	// (not where the scenario itself wedges the mirror service: its dispatcher is then parked in a send by design,
 	// and the decoding side is judged by the counters and the published messages)
@@ -1523,6 +1574,10 @@ func c16Items(tier string) []pipeItem {
 		// after a few datagrams the mirror queues are full for good - decoding must go on regardless
 		out = append(out, pipeItem{"mirror dead, queues of one entry", pipeRun{proto: p, workers: 1, seq: seqOf(al, "dataA-mid", "dataB-short", "dataA-mid", "dataB-short", "dataA-mid", "dataB-short", "dataA-long"), cache: cache, mirror: true, mirrorDead: true, qcap: 1, paced: true}, b})
 		out = append(out, pipeItem{"mirroring on, paced traffic short-mid-long", pipeRun{proto: p, workers: 1, seq: seqOf(al, "dataB-short", "dataA-mid", "dataA-long", "dataA-mid"), cache: cache, mirror: true, paced: true}, b})
+		if p == ppSFlow {
+			// all protocols live in one process: IPFIX with jumbo-frame buffers beside the mirrored sFlow pipeline
+			out = append(out, pipeItem{"mirroring on, an IPFIX pipeline with max-udp-size 9000 beside it", pipeRun{proto: p, workers: 1, seq: seqOf(al, "dataA-long", "dataB-short", "dataA-mid"), mirror: true, paced: true, companion: true}, b})
+		}
 	}
 	return out
 }
